@@ -267,13 +267,13 @@ theorem commutes_acc (t d t' d' : Nat) (op : ROp) (vals vals' : List Int) (h : o
         exact app_left_comm op h _ _ _)
       (m (.win r i))
 
-theorem commuteC_sound (w : Nat) (a b : Call) (h : commuteC a b = true) :
+theorem commuteC_sound (w : WSizes) (a b : Call) (h : commuteC a b = true) :
     Commutes (a.execW w) (b.execW w) := by
   intro m
   unfold Call.execW
-  by_cases ea : a.rangeErr w = true
+  by_cases ea : a.rangeErr (w a.target) = true
   · simp [ea]
-  · by_cases eb : b.rangeErr w = true
+  · by_cases eb : b.rangeErr (w b.target) = true
     · simp [eb]
     · simp only [ea, eb]
       unfold commuteC at h
@@ -293,7 +293,7 @@ theorem commuteC_sound (w : Nat) (a b : Call) (h : commuteC a b = true) :
           · simp [h1, h2] at h
         · simp [h1] at h
 
-theorem commutes_block_right (f : Mem → Mem) (w : Nat) (b : Block)
+theorem commutes_block_right (f : Mem → Mem) (w : WSizes) (b : Block)
     (h : ∀ c ∈ b, Commutes f (c.execW w)) : Commutes f (Block.exec w b) := by
   induction b with
   | nil => intro m; rfl
@@ -305,7 +305,7 @@ theorem commutes_block_right (f : Mem → Mem) (w : Nat) (b : Block)
     rw [← hc m]
     exact ih' (c.execW w m)
 
-theorem blocksCommute_sound (w : Nat) (a b : Block) (h : blocksCommute a b = true) :
+theorem blocksCommute_sound (w : WSizes) (a b : Block) (h : blocksCommute a b = true) :
     Commutes (Block.exec w a) (Block.exec w b) := by
   unfold blocksCommute at h
   rw [List.all_eq_true] at h
@@ -320,7 +320,7 @@ theorem blocksCommute_sound (w : Nat) (a b : Block) (h : blocksCommute a b = tru
   rw [List.all_eq_true] at this
   exact commuteC_sound w c c' (this c' hc')
 
-theorem commutes_run_right (f : Mem → Mem) (w : Nat) (bs : List Block)
+theorem commutes_run_right (f : Mem → Mem) (w : WSizes) (bs : List Block)
     (h : ∀ b ∈ bs, Commutes f (Block.exec w b)) : Commutes f (runBlocks w bs) := by
   induction bs with
   | nil => intro m; rfl
@@ -332,7 +332,7 @@ theorem commutes_run_right (f : Mem → Mem) (w : Nat) (bs : List Block)
     rw [← hb m]
     exact ih' (Block.exec w b m)
 
-theorem runBlocks_append (w : Nat) (xs ys : List Block) (m : Mem) :
+theorem runBlocks_append (w : WSizes) (xs ys : List Block) (m : Mem) :
     runBlocks w (xs ++ ys) m = runBlocks w ys (runBlocks w xs m) := by
   simp [runBlocks, List.foldl_append]
 
@@ -363,7 +363,7 @@ theorem mem_merges {α : Type} (ls : List (List α)) (l : List α) (h : l ∈ me
     simp
 
 /-- a merge of two sequences whose elements commute pairwise across the sequences runs like the concatenation -/
-theorem run_merge2 (w : Nat) (xs ys l : List Block) (h : l ∈ merge2 xs ys)
+theorem run_merge2 (w : WSizes) (xs ys l : List Block) (h : l ∈ merge2 xs ys)
     (hc : ∀ x ∈ xs, ∀ y ∈ ys, Commutes (Block.exec w x) (Block.exec w y)) (m : Mem) :
     runBlocks w l m = runBlocks w (xs ++ ys) m := by
   fun_induction merge2 xs ys generalizing l m with
